@@ -112,6 +112,20 @@ func (a *FA) maskOf(v ssa.Value, depth int) (MaskSem, bool) {
 					return MaskSem{"low", m.N, "computed"}, true
 				}
 			}
+		case token.OR, token.ADD, token.XOR: // disjoint parts joined: bit(n) | low(n) = low(n+1), bit(n) | high(n+1) = high(n)
+			m1, ok1 := a.maskOf(x.X, depth+1)
+			m2, ok2 := a.maskOf(x.Y, depth+1)
+			if ok1 && ok2 {
+				if m1.Kind != "bit" {
+					m1, m2 = m2, m1
+				}
+				if m1.Kind == "bit" && m2.Kind == "low" && m1.N.Eq(m2.N) {
+					return MaskSem{"low", m1.N.Add(linConst(1)), "computed"}, true
+				}
+				if m1.Kind == "bit" && m2.Kind == "high" && m1.N.Add(linConst(1)).Eq(m2.N) {
+					return MaskSem{"high", m1.N, "computed"}, true
+				}
+			}
 		case token.SHL:
 			if c, ok := constInt64(stripConv(x.X)); ok && c == 1 { // 1<<n
 				return MaskSem{"bit", a.Lin(x.Y), "computed"}, true
@@ -161,7 +175,10 @@ func looksLikeMask(v ssa.Value) bool {
 					c, ok := constInt64(stripConv(one))
 					return ok && c == 1
 				}
+				return looksLikeMask(x.X) // bit - 1
 			}
+		case token.OR, token.ADD, token.XOR:
+			return looksLikeMask(x.X) && looksLikeMask(x.Y) // masks joined
 		case token.SHL:
 			if c, ok := constInt64(stripConv(x.X)); ok && c == 1 {
 				return true
